@@ -772,3 +772,43 @@ def aggregation_boundary(cfg):
     cfg.ext_q["Aggregation::ToPoint"] = _virtual_topoint
     cfg.ext_q["system_clock::now"] = lambda em, node, recv, args: "xc_now()"
     cfg.ext["now"] = lambda em, node, recv, args: "xc_now()"
+
+
+# ---------------------------------------------------------------------------------------------
+# sdk::trace::Span boundary: the recordable and the processor are handles; every call made on them is a ghost-recorded call
+def _variant_opaque(em, base, targs, name):
+    # common::AttributeValue and friends: the span only passes them on
+    if base in ("nostd::variant", "variant", "absl::otel_v1::variant") and targs and len(targs) > 4:
+        return CT("xc_opaque")
+    return None
+
+
+def _rec_call(method):
+    def h(em, node, recv, args):
+        r = recv["node"] if isinstance(recv, dict) and recv.get("xc_is_ptr") else recv
+        md = em.ix.by_id.get(node["inner"][0].get("referencedMemberDecl")) or {}
+        tags = []
+        for p in md.get("inner", []):
+            if p.get("kind") == "ParmVarDecl":
+                t = em.ctype(p["type"])
+                tags.append({"string_view": "s", "SystemTimestamp": "t", "xc_opaque": "p", "int": "i", "long": "i"}.get(t.base, "x"))
+        em.report["calls on the recordable (virtual Recordable::*) turned into ghost-recorded boundary calls"] += 1
+        return "xc_rec_%s_%s(%s)" % (method, "".join(tags) or "v", ", ".join([em.expr(r)] + em.call_args(md, args)))
+    return h
+
+
+def span_boundary(cfg):
+    cfg.type_handlers.insert(0, _variant_opaque)
+    for k in ("std::unique_ptr::operator==", "std::unique_ptr::operator!="):
+        op = k[-2:]
+        cfg.ext_methods[k] = (lambda o: (lambda em, recv, args, n: "(%s.id %s 0)" % (recv, o)))(op)
+    cfg.ext_methods["std::unique_ptr::reset"] = lambda em, recv, args, n: "%s.id = %s" % (recv, ("(%s).id" % em.expr(args[0])) if [a for a in args if a.get("kind") != "CXXDefaultArgExpr"] else "0")
+    for m in ("SetAttribute", "AddEvent", "AddLink", "SetStatus", "SetName", "SetDuration", "SetStartTime", "SetSpanKind", "SetResource",
+              "SetInstrumentationScope", "SetIdentity", "SetTraceFlags"):
+        cfg.ext_q["Recordable::" + m] = _rec_call(m)
+    cfg.ext_q["Tracer::GetProcessor"] = lambda em, node, recv, args: "xc_tracer_GetProcessor(%s)" % em.expr(recv["node"] if isinstance(recv, dict) and recv.get("xc_is_ptr") else recv)
+    cfg.ext_q["SpanProcessor::OnEnd"] = lambda em, node, recv, args: "xc_proc_OnEnd(%s, %s)" % (em.expr(recv["node"] if isinstance(recv, dict) and recv.get("xc_is_ptr") else recv), em.expr(args[0]))
+    cfg.ext["now"] = lambda em, node, recv, args: ("xc_steady_now()" if "steady" in (node["type"].get("qualType", "") + node["type"].get("desugaredQualType", "")) else "xc_now()")
+    cfg.ext_methods["std::chrono::time_point::operator-"] = lambda em, recv, args, n: "(%s - %s)" % (recv, em.expr(args[0]))
+    cfg.ctor_ext["std::chrono::time_point"] = lambda em, node, args: (em.expr(args[0]) if args else "0")
+    cfg.drop_types = getattr(cfg, "drop_types", set()) | {"std::lock_guard"}
